@@ -374,14 +374,14 @@ def _values(rec, snap, arm, key_case, changed):
             # a rewrite strictly inside one side: that side must keep its value
             side = 2 if snap["path"][0] == "L" else 3
             if after[0] == "Equal":
-                _value_pair(rec, snap, arm, key_case, changed, snap["xbefore"][side], snap["xafter"][side], rng, tol, "side-of-equation")
+                _value_pair(rec, snap, arm, key_case, changed, snap["xbefore"][side], snap["xafter"][side], rng, tol, "side-of-equation", raw=(before[side], after[side]))
         return
     if "value" in CHECKS:
         if after[0] == "Equal":
             rec.violation("C01", f"value/{arm}/became-equation", "an expression was rewritten into an equation",
                           witness_of(snap, {"after": snap["after_text"], "summary": f"{label}: '{snap['text']}' -> '{snap['after_text']}'"}))
             return
-        _value_pair(rec, snap, arm, key_case, changed, snap["xbefore"], snap["xafter"], rng, tol, "expression")
+        _value_pair(rec, snap, arm, key_case, changed, snap["xbefore"], snap["xafter"], rng, tol, "expression", raw=(before, after))
         if "evaluate-after" in CHECKS:
             _evaluate_after(rec, snap, rng)
 
@@ -420,6 +420,28 @@ def _fold_off(rec, snap, arm, off):
     return False
 
 
+def _integer_closed(sh):
+    if sh is None:
+        return True
+    k, p, l, r = sh
+    if k == "Constant":
+        return "int" in p[0] and isinstance(p[1], X.Fraction) and p[1].denominator == 1
+    if k == "Variable":
+        return True
+    if k in ("Add", "Subtract", "Multiply", "Negate"):
+        return _integer_closed(l) and _integer_closed(r)
+    if k == "Power":
+        return _integer_closed(l) and r is not None and r[0] == "Constant" and "int" in r[1][0] and isinstance(r[1][1], X.Fraction) and r[1][1].denominator == 1 and 0 <= r[1][1] <= 64
+    return False
+
+
+def _normal_range(fracs):
+    """every new float constant of the step lies well inside the normal range of a double (near under- or
+    overflow one operation may legitimately lose everything)"""
+    lo, hi = X.Fraction(1, 10 ** 290), X.Fraction(10 ** 290)
+    return all(lo < abs(f) < hi for f in fracs)
+
+
 def _evaluate_after(rec, snap, rng):
     """the value of the rewritten tree as the implementation's own evaluate() computes it (the value
     comparison above works on shadows with exact constants; a constant whose TYPE changed -- a
@@ -442,7 +464,7 @@ def _evaluate_after(rec, snap, rng):
     ME.decide("C05", after_root, after, ctx, res, exc)
 
 
-def _value_pair(rec, snap, arm, key_case, changed, sb, sa, rng, tol, what):
+def _value_pair(rec, snap, arm, key_case, changed, sb, sa, rng, tol, what, raw=None):
     label = snap["label"]
     names = S.variables(sb) | S.variables(sa)
     sig = X.assignments(names, rng, n_extra=2)
@@ -450,6 +472,21 @@ def _value_pair(rec, snap, arm, key_case, changed, sb, sa, rng, tol, what):
     if r["diffs"] and tol:
         r = X.compare_values(sb, sa, sig, True)
         rec.arm("value:tolerant-fallback")
+        if not r["diffs"] and raw is not None and _integer_closed(raw[0]):
+            # the expression before the step is built from exact integers with + - * and whole non-negative powers
+            # only: its value at integer points is an exact integer of any magnitude (C05), correct arithmetic on it
+            # never rounds, and a result that stands for a different number is not rounding slack
+            ints = [g for g in sig if all(v.denominator == 1 for v in g.values())]
+            rr = X.compare_values(raw[0], raw[1], ints, False)
+            rec.arm("value:integer-expression-compared-exactly")
+            if rr["diffs"]:
+                r = rr
+        elif not r["diffs"] and raw is not None and _normal_range(X.new_floats(raw[0], raw[1])):
+            # nothing beyond the wide tolerance: the step on its own, binary values of the doubles, narrow tolerance
+            rr = X.compare_values(raw[0], raw[1], sig, "tight")
+            rec.arm("value:single-step-binary-comparison")
+            if rr["diffs"]:
+                r = rr
     rec.arm("value:compared:" + what)
     if r["diffs"]:
         s0, vb, va = r["diffs"][0]
@@ -581,6 +618,10 @@ def attach_can():
         contracts.attach(cls, "can_apply_to", pre=_pre_can, post=_post_can)
 
 
+def _has_wide_int(sh):
+    return any("int" in tag and isinstance(v, X.Fraction) and v.denominator == 1 and abs(v) >= 2 ** 64 for tag, v in S.constants(sh))
+
+
 def _pre_can(self, node):
     root = S.root_of(node)
     return {"ids": S.idshadow(root), "root": root, "path": S.path_from_root(node), "sh": S.shadow(root)}
@@ -601,6 +642,8 @@ def _post_can(snap, a, k, res, exc):
         return d
 
     if exc is not None:
+        if label.startswith("DF") and isinstance(exc, TypeError) and "sqrt" in str(exc) and _has_wide_int(snap["sh"]):
+            label = "DF/int-beyond-64-bits"      # one mechanism (see known_findings.json), whatever the option
         rec.violation("C06", f"can-raises/{label}/{type(exc).__name__}", "can_apply_to raised",
                       w({"summary": f"{label}.can_apply_to raised {type(exc).__name__}: {str(exc)[:80]} on '{S.text_of(S.build(snap['sh']))}'"}))
         return
@@ -659,12 +702,15 @@ def attach_find():
         rec.arm("find_nodes:" + label)
         order = S.nodes_inorder(expr)
         can = raw_can(self)
-        want = [n for n in order if can(n)]
         wit = {"rule": label, "tree": S.to_json(S.shadow(S.root_of(expr))), "before": S.text_of(expr)}
         if exc is not None:
             wit["summary"] = f"{label}.find_nodes raised {type(exc).__name__} on '{S.text_of(expr)}'"
+            if label.startswith("DF") and isinstance(exc, TypeError) and "sqrt" in str(exc) and _has_wide_int(S.shadow(S.root_of(expr))):
+                rec.arm("find:raised-through-a-raising-can_apply_to")     # reported once, where it is raised (can-raises/DF/int-beyond-64-bits)
+                return
             rec.violation("C06", f"find_nodes-raises/{label}", "find_nodes raised", wit)
             return
+        want = [n for n in order if can(n)]
         if len(res) != len(want) or any(x is not y for x, y in zip(res, want)):
             wit["summary"] = f"{label}.find_nodes on '{S.text_of(expr)}' returned in-order indices {[_ix(order, n) for n in res]} expected {[_ix(order, n) for n in want]}"
             rec.violation("C06", f"find_nodes-set/{label}", "find_nodes does not return exactly the applicable nodes in in-order", wit)
@@ -685,7 +731,13 @@ def attach_find():
         rec.arm("find_node:" + label)
         order = S.nodes_inorder(expr)
         can = raw_can(self)
-        want = next((n for n in order if can(n)), None)
+        if exc is not None and label.startswith("DF") and isinstance(exc, TypeError) and "sqrt" in str(exc) and _has_wide_int(S.shadow(S.root_of(expr))):
+            rec.arm("find:raised-through-a-raising-can_apply_to")
+            return
+        try:
+            want = next((n for n in order if can(n)), None)
+        except Exception:
+            want = None          # the question itself raises: reported by the can_apply_to monitor
         if exc is not None or res is not want:
             rec.violation("C06", f"find_node-first/{label}", "find_node does not return the first applicable node",
                           {"rule": label, "tree": S.to_json(S.shadow(S.root_of(expr))), "before": S.text_of(expr),
